@@ -168,7 +168,12 @@ Tests == {If(Var("a"), ThenElse[1], ThenElse[2]), If(Bin("==", Var("X"), Num(0))
 F7a == {Prog("F7a", <<p, q>>) : p \in Pool, q \in Tests}
 F7b == {Prog("F7b", <<p, q, r>>) : p \in Pool, q \in Pool, r \in Tests}
 
-AllFams == F1a \cup F1b \cup F1c \cup F1d \cup F1e \cup F1f \cup F1g \cup F2a \cup F2b \cup F2c \cup F2z \cup F2s
+\* FW: witnesses of defect classes that the families above deliberately stay out of (known findings)
+FW == {Prog("FW", <<S(Asg("=", Var("s"), Bin("<<", Var("a"), Num(1))))>>), Prog("FW", <<S(Asg("=", Var("s"), Bin(">>", Var("b"), Num(1))))>>),
+       Prog("FW", <<S(Asg("=", Var("ss"), Un("!", Var("a"))))>>), Prog("FW", <<S(Asg("=", Var("s"), Un("~", Var("s"))))>>),
+       Prog("FW", <<S(Asg("=", Var("s"), Bin("<", Var("a"), Var("b"))))>>), Prog("FW", <<S(Asg("=", Var("s"), Call("f", <<Var("b")>>)))>>),
+       Prog("FW", <<S(Asg("=", Var("s"), Cond(Bin("<", Var("a"), Num(200)), Num(5), Var("X"))))>>)}
+AllFams == FW \cup F1a \cup F1b \cup F1c \cup F1d \cup F1e \cup F1f \cup F1g \cup F2a \cup F2b \cup F2c \cup F2z \cup F2s
            \cup F3a \cup F3b \cup F3c \cup F4 \cup F5a \cup F5b \cup F7a \cup F7b
 Family ==
   CASE Fam = "ALL" -> AllFams
@@ -177,7 +182,7 @@ Family ==
     [] Fam = "F2a" -> F2a [] Fam = "F2b" -> F2b [] Fam = "F2c" -> F2c [] Fam = "F2z" -> F2z [] Fam = "F2s" -> F2s
     [] Fam = "F3a" -> F3a [] Fam = "F3b" -> F3b [] Fam = "F3c" -> F3c
     [] Fam = "F4" -> F4 [] Fam = "F5a" -> F5a [] Fam = "F5b" -> F5b
-    [] Fam = "F7a" -> F7a [] Fam = "F7b" -> F7b
+    [] Fam = "F7a" -> F7a [] Fam = "F7b" -> F7b [] Fam = "FW" -> FW
 
 VARIABLE prog
 Init == prog \in Family
